@@ -190,7 +190,7 @@ pub trait GuestMemory: Sized {
 //@endfn
 
 //@fn src/guest_memory.rs :: pub trait GuestMemory\b :: check_address :: tags=C02,C07
-//@sub \|_\| addr => |_x: &Self::R| -> (q: GuestAddress) ensures q == addr { addr }
+//@sub \|_x\| addr => |_x: &Self::R| -> (q: GuestAddress) ensures q == addr { addr }
 //@spec
         requires self.gm_wf(),
         ensures r == (if @mapped(self, addr.0 as int) { Some(addr) } else { None::<GuestAddress> }), // [C02]
